@@ -17,7 +17,7 @@ MUTANTS = [
     dict(name="sse-dispatch-on-every-line", file=F, expect="R18.2",
          old="        if line == \"\":\n            # End of event\n", new="        if line == \"\" or len(event_lines) >= 1:\n            # End of event\n"),
     dict(name="sse-drop-lines-conditionally", file=F, expect="R18.2",
-         old="        else:\n            event_lines.append(line)\n", new="        elif not line.startswith(\" \"):\n            event_lines.append(line)\n"),
+         old="        elif not line.startswith(\":\"):\n", new="        elif not line.startswith(\":\") and not line.startswith(\" \"):\n"),
     dict(name="sse-parsed-not-yielded", file=F, expect="R18.2",
          old="                event = _parse_sse_event(event_lines)\n                if event:\n                    yield event\n                event_lines = []",
          new="                event = _parse_sse_event(event_lines)\n                event_lines = []"),
@@ -37,4 +37,5 @@ MUTANTS.append(dict(name="sse-event-gains-len", file='core/streaming_helpers.py'
     old='    def __repr__(self) -> str:\n        return f"SSEEvent(data=', new='    def __len__(self) -> int:\n        return len(self.data)\n\n    def __repr__(self) -> str:\n        return f"SSEEvent(data='))
 MUTANTS.append(dict(name='sse-field-split-needs-space', file='core/streaming_helpers.py', expect='R18.3', old='            field, value = line.split(":", 1)\n', new='            field, _, value = line.partition(": ")\n'))
 MUTANTS.append(dict(name='sse-lines-stripped', file='core/streaming_helpers.py', expect='R18.6', old='        if line == "":\n            # End of event\n', new='        line = line.strip()\n        if line == "":\n            # End of event\n'))
-MUTANTS.append(dict(name='sse-buffer-in-class-attribute', file='core/streaming_helpers.py', expect='R18.7', old='async def iter_sse(response: httpx.Response) -> AsyncIterator[SSEEvent]:\n    """Parse Server-Sent Events (SSE) from a streaming response."""\n    event_lines: list[str] = []\n    async for line in response.aiter_lines():\n        if line == "":\n            # End of event\n            if event_lines:\n                event = _parse_sse_event(event_lines)\n                if event:\n                    yield event\n                event_lines = []\n        else:\n            event_lines.append(line)\n    # Last event (if any)\n    if event_lines:\n        event = _parse_sse_event(event_lines)\n        if event:\n            yield event\n', new='class _PendingEvent:\n    """The lines received so far for the event block that is still open."""\n\n    lines: List[str] = []\n\n    def take(self) -> SSEEvent | None:\n        """Parse the open block (if any) and start a new one."""\n        if not self.lines:\n            return None\n        event = _parse_sse_event(self.lines)\n        self.lines.clear()\n        return event\n\n\nasync def iter_sse(response: httpx.Response) -> AsyncIterator[SSEEvent]:\n    """Parse Server-Sent Events (SSE) from a streaming response."""\n    pending = _PendingEvent()\n    async for line in response.aiter_lines():\n        if line == "":\n            # End of event\n            event = pending.take()\n            if event:\n                yield event\n        else:\n            pending.lines.append(line)\n    # Last event (if any)\n    event = pending.take()\n    if event:\n        yield event\n'))
+MUTANTS.append(dict(name='sse-buffer-in-class-attribute', file='core/streaming_helpers.py', expect='R18.7', old='async def iter_sse(response: httpx.Response) -> AsyncIterator[SSEEvent]:\n    """Parse Server-Sent Events (SSE) from a streaming response."""\n    event_lines: list[str] = []\n    async for line in response.aiter_lines():\n        if line == "":\n            # End of event\n            if event_lines:\n                event = _parse_sse_event(event_lines)\n                if event:\n                    yield event\n                event_lines = []\n        elif not line.startswith(":"):\n            # Comment lines (keep-alives) are ignored: a block of comments only is not an event\n            event_lines.append(line)\n    # Last event (if any)\n    if event_lines:\n        event = _parse_sse_event(event_lines)\n        if event:\n            yield event\n', new='class _PendingEvent:\n    """The lines received so far for the event block that is still open."""\n\n    lines: List[str] = []\n\n    def take(self) -> SSEEvent | None:\n        """Parse the open block (if any) and start a new one."""\n        if not self.lines:\n            return None\n        event = _parse_sse_event(self.lines)\n        self.lines.clear()\n        return event\n\n\nasync def iter_sse(response: httpx.Response) -> AsyncIterator[SSEEvent]:\n    """Parse Server-Sent Events (SSE) from a streaming response."""\n    pending = _PendingEvent()\n    async for line in response.aiter_lines():\n        if line == "":\n            # End of event\n            event = pending.take()\n            if event:\n                yield event\n        else:\n            pending.lines.append(line)\n    # Last event (if any)\n    event = pending.take()\n    if event:\n        yield event\n'))
+MUTANTS.append(dict(name='sse-comment-lines-collected-again', file='core/streaming_helpers.py', expect='R18.8', old='        elif not line.startswith(":"):\n', new='        else:\n'))
